@@ -182,7 +182,8 @@ def _exec(op, kv):
         return "1" if C.parse_row_t(kv["A"], P).check_overlap(C.parse_row_t(kv["B"], P), int(kv["diff"])) else "0"
     if op == "JOINROWS":
         P = params(kv)
-        return C.show_row(C.parse_row_t(kv["A"], P).resolve(C.parse_row_t(kv["B"], P)))
+        j = C.parse_row_t(kv["A"], P).resolve(C.parse_row_t(kv["B"], P))
+        return "None" if j is None else C.show_row(j)
     if op == "RESOLVEROWS":
         P = params(kv)
         rows = [C.parse_row_t(t, P) for t in kv.get("ROWS", "").split("^") if t]
